@@ -267,8 +267,8 @@ func (p *Parser) Documents() []*Document {
 
 // outputDocument returns the output objects generated by the specified
 // document.
-func (p *Parser) outputDocument(doc *Document) ([]any, error) {
-	docs, err := doc.Process(p.docs)
+func (p *Parser) outputDocument(doc *Document, all []*Document) ([]any, error) {
+	docs, err := doc.Process(all)
 	if err != nil {
 		return nil, err
 	}
@@ -311,8 +311,21 @@ func (p *Parser) outputDocument(doc *Document) ([]any, error) {
 func (p *Parser) OutputDocuments() ([]any, error) {
 	ret := []any{}
 
+	// Evaluate copies so that producing output never modifies the merged
+	// documents held by the Parser.
+	docs := make([]*Document, 0, len(p.docs))
+
 	for _, doc := range p.docs {
-		outs, err := p.outputDocument(doc)
+		doc2, err := doc.Clone("output")
+		if err != nil {
+			return nil, err
+		}
+
+		docs = append(docs, doc2)
+	}
+
+	for _, doc := range docs {
+		outs, err := p.outputDocument(doc, docs)
 		if err != nil {
 			return nil, err
 		}
